@@ -335,3 +335,12 @@ _extend("C11", "commit-order rule on every failure of an allocation (R19b, incl.
 _extend("C12", "dangling-element rule (R41 over elements of owned vectors)",
         "Also decides that no element of a vector the object owns (a calibration slot) is released in front of an allocation whose failure returns with the slot still pointing at it.")
 _extend("C20", "replace-on-success rule (R88)", "Also decides that a failing solve cannot have released the result of an earlier successful one.")
+_extend("C03", "row-extent rule (R90)", "Also decides that a freshly allocated vector of row pointers is filled with rows over the whole extent it was allocated with.")
+_extend("C15", "row-extent rule (R90)", "Also decides that the per-frequency z0 rows are created up to the frequency allocation, not the logical size.")
+_extend("C13", "character-class sibling agreement of vnaproperty_quote_key (R91)",
+        "Also decides that the first-position and the interior-position escape tests of quote_key name the same explicit characters (the backslash) beside their class macros.")
+CHECKS["C14"]["technique"] += "; character-class sibling agreement of quote_key's position tests (R91); no refusal by root-node kind between a file's properties key and the importer (R92)"
+CHECKS["C14"]["text"] = CHECKS["C14"]["text"].replace(" Does not decide libyaml", " Also decides that quote_key escapes the same explicit characters at the first and at the "
+                                                      "other positions, and that no loader refuses a property tree for the kind of its root node between the `properties` key and "
+                                                      "the importer. Does not decide libyaml")
+_extend("C07", "root-kind rule for embedded property trees (R92)", "Also decides that vnacal_load hands the node under every `properties` key to the importer whatever its kind.")
